@@ -578,14 +578,16 @@ def resolve_runtime_selected(
         return None  # all outputs — no narrowing
     if isinstance(select, str):
         sel: tuple[str, ...] = (select,)
-    elif isinstance(select, (list, tuple)):
-        # (a tuple of names is used like a list of names by the output filter,
-        # so it is validated like one)
-        sel = tuple(select)
     else:
-        # Unexpected type — treat as "no narrowing" rather than raising, since
-        # run() signature already constrains the type at the public API level.
-        return None
+        # Any other iterable of names (tuple, set, frozenset, dict keys, ...) is
+        # used like a list of names by the output filter, so it is validated
+        # like one.
+        try:
+            sel = tuple(select)
+        except TypeError:
+            # Not iterable at all — treat as "no narrowing" rather than raising,
+            # since run() signature already constrains the type at the public API level.
+            return None
 
     invalid = [n for n in sel if n not in graph.outputs]
     if invalid:
